@@ -3,7 +3,7 @@ import ast
 
 from ..core import Property, AnalysisError, unparse, norm, walk_no_nested
 from ..sym import Interp, S, term, show, subterms, State, rewrite
-from ..stack import SymStack, stack_decide
+from ..stack import SymStack, stack_decide, ShapeSplit
 from ..cfg import build_cfg
 from .. import intv, mut
 
@@ -66,7 +66,7 @@ NOT_IMPLEMENTED = {'OP_CAT', 'OP_SUBSTR', 'OP_LEFT', 'OP_RIGHT', 'OP_INVERT', 'O
 INLINE = {'OP_0', 'OP_1NEGATE', 'OP_ELSE', 'OP_ENDIF', 'OP_PUSHDATA1', 'OP_PUSHDATA2', 'OP_PUSHDATA4'} | {'OP_%d' % i for i in range(1, 17)}
 
 
-def _run_handler(ctx, name, extra=None):
+def _run_handler(ctx, name, extra=None, report_split=False):
     fn = ctx.repo.func('scripts:Stack.' + name)
     it = Interp(ctx.repo, 'scripts', decide=stack_decide, max_depth=5)
     stk = SymStack()
@@ -75,7 +75,16 @@ def _run_handler(ctx, name, extra=None):
         args[p] = S(('var', p))
     if extra:
         args.update(extra)
-    exits = it.run_function(fn, args)
+    try:
+        exits = it.run_function(fn, args)
+    except ShapeSplit as e:
+        if name in DATA_DEPENDENT or name in SPECIAL:
+            raise
+        # a fixed-arity opcode whose stack depth depends on operand values: reported once, by C19.effect
+        if report_split:
+            ctx.violate('scripts:Stack.' + name, 'the number of items consumed depends on the operand values (%s)' % str(e)[:300], fn,
+                        'consensus %s always consumes the same number of items; a pop inside a short-circuited / conditional expression is skipped for some operands' % name.upper())
+        return fn, None
     return fn, exits
 
 
@@ -173,7 +182,10 @@ def effect(ctx):
             continue
         if spec_name not in EFFECTS:
             ctx.undecided('handler %s has no entry in the consensus effect table' % h)
-        fn, exits = _run_handler(ctx, h)
+        fn, exits = _run_handler(ctx, h, report_split=True)
+        if exits is None:
+            compared += 1
+            continue
         e = _main_exit(exits)
         if e is None:
             ctx.violate(q, 'handler never succeeds', fn)
@@ -256,6 +268,10 @@ def truth(ctx):
         q = 'scripts:Stack.' + h
         extra = {'commands': S(('var', 'commands'), 'list')} if h in ('op_if', 'op_notif') else None
         fn, exits = _run_handler(ctx, h, extra)
+        if exits is None:
+            sites += 1
+            ctx.saw('%s: stack depth is data dependent (reported by C19.effect)' % h)
+            continue
         raw = set()
         for e in exits:
             stk = e.env['self']
@@ -467,6 +483,9 @@ def arith_guard(ctx):
     for h, k in sorted(numeric.items()):
         q = 'scripts:Stack.' + h
         fn, exits = _run_handler(ctx, h)
+        if exits is None:
+            ctx.saw('%s: stack depth is data dependent (reported by C19.effect)' % h)
+            continue
         lens = [('len', I(j)) for j in range(1, k + 1)]
         bad = []
         for j in range(1, k + 1):
